@@ -108,19 +108,19 @@ def agg_triggers(spec, ref_rows):
         name = a[1]
         for row, free, full, group in ref_rows:
             if group is None: continue
-            vals = []
+            vals = []; unbound_rows = 0
             for m in group:
                 try:
                     vals.append(R.ev(a[3], m, None))
-                except R.Err:
+                except R.Err as ex:
                     vals.append(None)
+                    if str(ex) == "unbound": unbound_rows += 1
                 except Exception:
                     vals.append(None)
             nn = [x for x in vals if x is not None]
-            if name in ("MIN", "MAX") and any(not isinstance(x, Literal) for x in nn): t.add("C08-minmax-over-non-literals")
-            if name in ("SUM", "AVG") and (any(R.num(x) is None for x in nn) or len(nn) != len(vals)): t.add("C08-sum-avg-over-non-numeric")
+            # SUM/AVG skip the rows in which the expression is unbound (pinned by the repository's test_agg_undef); the aggregate should have no value
+            if name in ("SUM", "AVG") and unbound_rows: t.add("C08-sum-avg-skip-unbound")
             if name == "AVG" and any((R.num(x) or (9,))[0] == 2 for x in nn): t.add("C08-avg-float-promotion")
-            if name in ("MIN", "MAX", "SAMPLE", "GROUP_CONCAT") and len(nn) != len(vals) and a[3][0] != "var": t.add("C08-aggregate-over-error-values")
     return t
 
 
